@@ -81,7 +81,7 @@ fn attach_payload(rng: &mut Rng, kind: Kind, req: &mut IppRequestResponse, paylo
         1 => Fallback::Chunk(rng.range(1, 100)),
         _ => Fallback::Chunk(rng.range(100, 70_000)),
     };
-    let plan = SrcPlan { steps, fallback, fail_at: None, fail_once: false, thread_wake: true };
+    let plan = SrcPlan { steps, fallback, fail_at: None, steps_start: 0, fail_once: false, thread_wake: true };
     let (src, _) = Scripted::new(data, plan);
     if kind == Kind::Async && rng.chance(2, 3) {
         *req.payload_mut() = IppPayload::new_async(src);
@@ -209,7 +209,23 @@ fn rand_cfg(rng: &mut Rng) -> ClientCfg {
         cfg.headers.push((format!("X-Verif-{i}"), format!("v{}-{}", i, rng.below(1000))));
     }
     if rng.chance(1, 2) {
-        cfg.basic = Some((format!("user{}", rng.below(100)), rng.pick(&["secret", "p:w", "pä55", ""]).to_string()));
+        // arbitrary UTF-8 credentials; many of them have '+' or '/' in their base64 image
+        let user = match rng.below(3) {
+            0 => format!("user{}", rng.below(100)),
+            1 => rng.pick(&["joe", "xyz", "aπ", "jörg", "a", ""]).to_string(),
+            _ => {
+                let n = rng.below(12) as usize;
+                gen::utf8_exact(rng, n).replace(':', "_")
+            }
+        };
+        let pw = match rng.below(3) {
+            0 => rng.pick(&["secret", "p:w", "pä55", "", "p~ss", "p?ss", "¿qué", ">>>", "~~~?"]).to_string(),
+            _ => {
+                let n = rng.below(16) as usize;
+                gen::utf8_exact(rng, n)
+            }
+        };
+        cfg.basic = Some((user, pw));
     }
     cfg.timeout_ms = if rng.chance(1, 3) { Some(60_000) } else { None };
     cfg
@@ -339,6 +355,18 @@ pub fn run(args: &Args, tier: &str, seed: u64, backend: &str) -> Report {
         specs.push((CaseSpec { id, kind, scheme: "http", cfg, request: gen_request(&mut rng, 100), plan, expect: Expect::MustErr(format!("timeout: the server stalled 6000 ms {} the response with request_timeout = 500 ms", if *inside { "inside" } else { "before" })), what: format!("stall {} response, timeout 500ms", if *inside { "inside" } else { "before" }) }, seed ^ 0xD000 ^ i as u64));
     }
 
+    // ---- D2: a server that is slow in total but never silent for as long as the timeout (trickle)
+    for (i, kind) in [Kind::Blocking, Kind::Async].iter().enumerate() {
+        let id = mk_id("t");
+        let mut rng = Rng::fork(seed ^ 0xC11D2, i as u64);
+        let mut resp = gen_response(&mut rng);
+        resp.data = rng.bytes(600);
+        let mut plan = Plan::ok(crate::ref_bytes(&resp));
+        plan.trickle = Some((40, 200)); // 40-byte pieces every 200 ms: several seconds in total
+        let cfg = ClientCfg { timeout_ms: Some(700), ..ClientCfg::default() };
+        specs.push((CaseSpec { id, kind: *kind, scheme: "http", cfg, request: gen_request(&mut rng, 100), plan, expect: Expect::MustErr("timeout: the server trickled the response over several seconds (a piece every 200 ms) with request_timeout = 700 ms".into()), what: "trickled response, timeout 700ms".into() }, seed ^ 0xD200 ^ i as u64));
+    }
+
     if let Some(o) = &only {
         specs.retain(|s| &s.0.id == o);
     }
@@ -394,7 +422,7 @@ pub fn run(args: &Args, tier: &str, seed: u64, backend: &str) -> Report {
     srv.stop();
     rep.extra.insert("tls_backend_of_this_build".into(), J::Str(backend.to_string()));
     rep.extra.insert("peer_events_logged".into(), J::Int(srv.log.lock().unwrap().len() as i64));
-    rep.rule = "Live loopback peer (raw std::net HTTP/1.1 server with an event log) x both clients. (A) random exchanges: G1 requests with payloads 0 B..MiBs from fragmented / interrupted / not-ready blocking and async sources, random custom headers, Basic credentials, ipp:// and http:// targets with path+query, responses under content-length / chunked / close-delimited framing with write fragmentation; (B) HTTP statuses 4xx/5xx (quick: 20 registered ones, thorough: all 400..599) carrying a valid IPP body; (C) connection cut at EVERY offset inside the response's header+attributes under each framing; (D) server stalled before / inside the response with request_timeout set; (E) 16 concurrent senders x 20 sends through one client. Offline checker over the joined client-call / peer-event logs: exactly one POST per send, exact target and Host, Content-Type, custom headers, Basic credentials, body decoding (reference decoder) to exactly the request + payload; returned response == scripted response incl. trailing data; error cases must be Err; concurrent calls matched to their own responses by unique request-id + marker. evaluations = sends judged.".into();
+    rep.rule = "Live loopback peer (raw std::net HTTP/1.1 server with an event log) x both clients. (A) random exchanges: G1 requests with payloads 0 B..MiBs from fragmented / interrupted / not-ready blocking and async sources, random custom headers, Basic credentials, ipp:// and http:// targets with path+query, responses under content-length / chunked / close-delimited framing with write fragmentation; (B) HTTP statuses 4xx/5xx (quick: 20 registered ones, thorough: all 400..599) carrying a valid IPP body; (C) connection cut at EVERY offset inside the response's header+attributes under each framing; (D) server stalled before / inside the response, or trickling it in small pieces over several seconds, with request_timeout set; (E) 16 concurrent senders x 20 sends through one client. Offline checker over the joined client-call / peer-event logs: exactly one POST per send, exact target and Host, Content-Type, custom headers, Basic credentials, body decoding (reference decoder) to exactly the request + payload; returned response == scripted response incl. trailing data; error cases must be Err; concurrent calls matched to their own responses by unique request-id + marker. evaluations = sends judged.".into();
     if only.is_none() {
         rep.require(rep.sets.get("response_framings").map(|s| s.len()).unwrap_or(0) == 3, "all three response framings exercised");
         rep.require(rep.counters.get("cut_cases").copied().unwrap_or(0) >= 300, "cut offsets enumerated");
